@@ -4,7 +4,7 @@
     quasi-definite matrix), and the centering parameter stays in [0,1].  The convergence
     rate itself is measured by the check, not proved (see DESIGN.md, C06). *)
 From Coq Require Import Reals Lra.
-Require Import Clarabel.Newton.Model Clarabel.Newton.Spec Clarabel.Newton.Lemmas.
+Require Import Clarabel.Newton.Model Clarabel.Newton.Spec Clarabel.Newton.Lemmas Clarabel.Newton.Init.
 
 Theorem C06_newton_equations : stmt_newton_equations.
 Proof. exact newton_equations_ok. Qed.
@@ -14,6 +14,16 @@ Proof. exact centering_range_ok. Qed.
 
 Theorem C06_centering_ends : stmt_centering_ends.
 Proof. exact centering_ends_ok. Qed.
+
+(** the starting point of symmetric-cone problems (solve_initial_point, both branches):
+    primal equalities row by row (H = identity scaling, 0 on zero-cone rows) and the dual
+    equality, whenever the solves with K are exact *)
+Theorem C06_init_point_qp :
+  forall (n m : nat) (P A H : mat) (q b : vec), stmt_init_qp n m P A H q b.
+Proof. exact init_qp_ok. Qed.
+Theorem C06_init_point_lp :
+  forall (n m : nat) (P A H : mat) (q b : vec), stmt_init_lp n m P A H q b.
+Proof. exact init_lp_ok. Qed.
 
 (** non-vacuity: a 1x1 instance meeting every hypothesis of [C06_newton_equations]
     (P = 2, A = 1, H = 1, q = 1, b = 1; iterate x = 1, tau = 1, kappa = 1) *)
